@@ -83,6 +83,39 @@ def sel (c : Bool) (a b : X α) : X α := if c then a else b
 
 def ofBool (b : Bool) : X α := if b then fin 1 else fin 0
 
+def abs : X α → X α
+  | nan => nan | ninf => pinf | pinf => pinf | fin a => fin |a|
+
+def isfinite : X α → Bool | fin _ => true | _ => false
+
+end X
+
+/-- transcendental functions enter through an explicit bundle (ℝ for proofs, ℚ approximations for execution) -/
+structure Fn (α : Type) where
+  exp : α → α
+  log : α → α
+  sqrt : α → α
+  cos : α → α
+  pow : α → α → α
+  pi : α
+
+namespace X
+variable {α : Type} [Field α] [LinearOrder α] [IsStrictOrderedRing α]
+
+def sqrt (F : Fn α) : X α → X α
+  | nan => nan | ninf => nan | pinf => pinf
+  | fin a => if a < 0 then nan else fin (F.sqrt a)
+def exp (F : Fn α) : X α → X α
+  | nan => nan | ninf => fin 0 | pinf => pinf | fin a => fin (F.exp a)
+def cos (F : Fn α) : X α → X α
+  | fin a => fin (F.cos a) | _ => nan
+/-- `np.power(base ≥ 0, exponent)` as used by Bell: |·| ^ (2·slope), finite non-negative exponent -/
+def powNonneg (F : Fn α) : X α → X α → X α
+  | nan, _ | _, nan => nan
+  | fin a, fin b => fin (F.pow a b)
+  | pinf, fin b => if b = 0 then fin 1 else if 0 < b then pinf else fin 0
+  | _, _ => nan
+
 @[simp] theorem add_fin (a b : α) : add (fin a) (fin b) = fin (a + b) := rfl
 @[simp] theorem neg_fin (a : α) : neg (fin a) = fin (-a) := rfl
 @[simp] theorem sub_fin (a b : α) : sub (fin a) (fin b) = fin (a - b) := by simp [sub, sub_eq_add_neg]
@@ -106,9 +139,14 @@ def ofBool (b : Bool) : X α := if b then fin 1 else fin 0
     · have : a = b := le_antisymm h' h
       simp [this]
     · simp [h', max_eq_left h]
+@[simp] theorem mul_nan_right (a : X α) : mul a nan = nan := by cases a <;> rfl
+@[simp] theorem mul_nan_left (a : X α) : mul nan a = nan := by cases a <;> rfl
 theorem div_fin (a b : α) (hb : b ≠ 0) : div (fin a) (fin b) = fin (a / b) := by simp [div, hb]
 @[simp] theorem sel_true (a b : X α) : sel true a b = a := rfl
 @[simp] theorem sel_false (a b : X α) : sel false a b = b := rfl
+@[simp] theorem abs_fin (a : α) : abs (fin a) = fin |a| := rfl
+@[simp] theorem exp_fin (F : Fn α) (a : α) : exp F (fin a) = fin (F.exp a) := rfl
+theorem sqrt_fin (F : Fn α) (a : α) (h : 0 ≤ a) : sqrt F (fin a) = fin (F.sqrt a) := by simp [sqrt, not_lt.2 h]
 theorem sel_decide (p : Prop) [Decidable p] (a b : α) :
     sel (decide p) (fin a) (fin b) = fin (if p then a else b) := by
   by_cases h : p <;> simp [h]
